@@ -324,7 +324,7 @@ func hangAfter(c *c20Case) time.Duration {
 	if c.Kind == "limit" {
 		return 5 * time.Minute
 	}
-	return 30 * time.Second
+	return 5 * time.Minute
 }
 
 func watchdog(r *eng.Run, finish func(string)) {
